@@ -13,4 +13,5 @@ for l in sys.stdin:
 missing=sorted(base-ok)
 print("baseline tests passing: %d/%d"%(len(base&ok),len(base)))
 for m in missing[:12]: print("  NOT PASSING:",m)
+sys.exit(1 if missing else 0)
 '
